@@ -332,6 +332,8 @@ def run_c04(ctx):
     jobs, metas = _jobs_from(scen.optin, 'C04', ctx['seed'], n)
     j2, m2 = _jobs_from(scen.optin_alone, 'C04a', ctx['seed'], max(6, n // 3))
     jobs, metas = jobs + j2, dict(metas, **m2)
+    j3, m3 = _jobs_from(scen.optin_multi, 'C04m', ctx['seed'], max(6, n // 4))
+    jobs, metas = jobs + j3, dict(metas, **m3)
     out = pc.run_scenarios('C04', ctx, jobs, [_with_meta(metas, _c04_oracle)], nontrivial=pc.received_kinds)
     return pc.make_result('C04', ctx, out, 'frames of histories with per-peer registration subsets and switches, marked/unmarked entities, excluded components, uuid/index assets, a late joiner; every received message (receive tap) and every replica is checked; non-trivial = distinct (scenario, receiver, kind, key) received')
 
@@ -526,7 +528,9 @@ def run_c10(ctx):
     metas['corpus_S21_join_during_inframe_write'] = dict(key=('1', 0), writer=0)
     metas['corpus_S1_second_update_skipped'] = dict(key=('1', 0), writer=0)
     metas['corpus_S2_fix_reinsert_stale'] = dict(key=('1', 2), writer=1)
-    out = pc.run_scenarios('C10', ctx, jobs, [_with_meta(metas, _c10_oracle)], nontrivial=pc.received_kinds)
+    # a list-valued component that shrinks (S17): the reader must not keep the tail of the longer list
+    jobs = pc.corpus_jobs(['S17_*.scn', 'S17b_*.scn']) + jobs
+    out = pc.run_scenarios('C10', ctx, jobs, [_with_meta(metas, _c10_oracle), oracles.c16_skins], nontrivial=pc.received_kinds)
     nabs = _absval(out, lambda name: [metas[name]['key']] if name in metas and not name.startswith('corpus_') else [])
     out['opstats']['value_model_replays'] = nabs
     return pc.make_result('C10', ctx, out, 'frames of single-writer histories (bursts in consecutive frames, pauses, all relative pacings, unrelated traffic); the value displayed by every other peer after EVERY frame is checked to be a subsequence of the written values; non-trivial = distinct (scenario, receiver, kind, key) received')
@@ -571,7 +575,7 @@ def run_c16(ctx):
     n = _tier(ctx, 20, 240)
     gj, _ = _jobs_from(scen.skinned_clean, 'C16', ctx['seed'], n)
     gk, _ = _jobs_from(scen.skinned_join, 'C16j', ctx['seed'], max(6, n // 3))
-    jobs = pc.corpus_jobs(['S17_*.scn', 'S13_*.scn']) + gj + gk
+    jobs = pc.corpus_jobs(['S17_*.scn', 'S17b_*.scn', 'S13_*.scn']) + gj + gk
     out = pc.run_scenarios('C16', ctx, jobs, [oracles.c16_skins], nontrivial=pc.received_kinds)
     return pc.make_result('C16', ctx, out, 'frames of histories with SkinnedMesh components (0..3 joints, repeats, joints and meshes written by owners and by other peers, local entity ids differing between peers, late joiners = snapshot path); joints are compared as uuids; non-trivial = distinct (scenario, receiver, kind, key) received')
 
